@@ -116,13 +116,20 @@ def parse_show(s, i=0):
     raise ValueError('bad show text at %d: %r' % (i, s[i:i + 20]))
 
 
+NEG_ZERO_ELEM = {'D' + '-0x0.0p+0'.encode().hex() + ';': 'D' + '0x0.0p+0'.encode().hex() + ';'}
+
+
 def canon_node(n):
     if isinstance(n, str):
         return n
     if n[0] == '[':
         items = [canon_node(x) for x in n[3]]
         if n[1] in 'sf':
-            items.sort()
+            # Python set semantics: elements that are == collapse.  The model's element equality is
+            # structural (ordered lists for inner frozensets, float tokens by text), so compare modulo
+            # the two structural differences that are == in Python: inner-set order (already canonical
+            # here) and 0.0 / -0.0.
+            items = sorted(set(NEG_ZERO_ELEM.get(x, x) for x in items))
         return '[' + n[1] + ''.join(items) + ']'
     if n[0] == '{':
         items = [canon_node(k) + canon_node(v) for k, v in n[3]]
